@@ -17,7 +17,7 @@ WcharEnc == IF plat.wchar_bits = 32 THEN "utf32" ELSE "utf16"
 Documented == {"ok", "bad_format", "out_of_range", "invalid_argument", "unicode_error", "assert"}
 
 (* ---- fmt: the model outcome of one sink ---------------------------------*)
-SinkMode(k) == CASE k = "format" -> plat.dflt [] k = "_stfmt" -> plat.dflt [] k = "format_check" -> "check"
+SinkMode(k) == CASE k = "format" -> plat.dflt [] k = "_stfmt" -> plat.dflt [] k = "_stfmt_twice" -> plat.dflt [] k = "format_check" -> "check"
                  [] k = "format_substitute" -> "substitute" [] k = "format_assume" -> "assume" [] OTHER -> "none"
 (* (the _w sinks are streams with a pending width and fill: writef must not be affected by them) *)
 IsWide(k) == k \in {"writef_wostream", "writef_wostream_w", "writef_u16ostream", "writef_u32ostream"}
@@ -65,7 +65,8 @@ FmtProps(ev, k, s, r) ==
        \* a sink that did not emit the same bytes (C17)
        ELSE IF s.res \notin Documented THEN (IF formatRight /\ r.res = "ok" THEN <<"C10", "C17">> ELSE <<"C10">>)
        ELSE IF ~formatRight THEN <<>>                                 \* reported at the format sink
-       ELSE IF r.res = "ok" THEN <<"C17">> ELSE <<"C10">>
+       \* (the string-returning entry points are format calls themselves: their rendering is C11's subject as well)
+       ELSE IF r.res = "ok" THEN (IF SinkMode(k) # "none" THEN <<"C11", "C17">> ELSE <<"C17">>) ELSE <<"C10">>
 
 FmtRecs(ev) ==
     LET r == FmtModel(ev)
@@ -159,9 +160,15 @@ AbnormalProps(ev) ==
            [] ev.during.e = "streamio" -> <<"C17">>
            [] ev.during.e \in {"int", "parse"} -> <<"C12">>
            [] ev.during.e \in {"float", "parsef"} -> <<"C13">>
+           [] ev.during.e = "ffreuse" -> <<"C18">>
            [] OTHER -> <<"HARNESS">>
 
+(* ---- a kept formatter object: a refused call (unsupported notation) leaves the text of the earlier call (C18) *)
+FfRecs(ev) == IF ev.exc = "bad_format" /\ ev.after = ev.before /\ ev.n2 = ev.n /\ ev.z = ev.n THEN <<>>
+              ELSE << [line |-> l, i |-> ev.i, k |-> 0, what |-> "formatter object after a refused call", cls |-> "ffreuse/" \o ev.exc, props |-> <<"C18">>, kf |-> "none"] >>
+
 Recs(ev) == CASE ev.e = "fmt" -> FmtRecs(ev)
+              [] ev.e = "ffreuse" -> FfRecs(ev)
               [] ev.e = "streamio" -> StreamIoRecs(ev)
               [] ev.e = "int" -> IntRecs(ev)
               [] ev.e = "parse" -> ParseRecs(ev)
